@@ -78,7 +78,8 @@ var props = map[string]propSpec{
 		{Pkg: "rotation", Fn: "VerifC09NodeLemma", Validate: 0},
 	}, Assumptions: with(), Explanation: "inductive step + node lemma on the real rotation step function"},
 	"C10": {Harnesses: []harnessSpec{
-		{Pkg: "rotation", Fn: "VerifC10Rotate", Validate: 2},
+		{Pkg: "rotation", Fn: "VerifC10Rotate", Validate: 2, MustReach: []string{"rotated", "refused"}, Panics: true},
+		{Pkg: "rotation", Fn: "VerifC10Adversary", Validate: 16, MustReach: []string{"rotated", "refused"}, Panics: true, ShardBits: 4},
 	}, Assumptions: with(), Explanation: "RotateNodeCredentials after two honest enrollments"},
 	"C11": {Harnesses: []harnessSpec{
 		{Pkg: ".", Fn: "VerifC11Arbitrary", Validate: 2},
